@@ -87,6 +87,14 @@ fn run_one(out: &mut Sink, runno: u64, b: &Value, seed: u64) {
     } else {
         Shared2::M(mtx)
     };
+    {
+        let mut s = sh.lock().unwrap();
+        s.faults_by_cer = cers
+            .iter()
+            .map(|c| c["env"]["faults"].as_array().map(|a| a.iter().map(|v| v.as_u64().unwrap_or(0) as u8).collect()).unwrap_or_default())
+            .collect();
+        s.calls_by_cer = vec![0; cers.len()];
+    }
     for (i, c) in cers.iter().enumerate() {
         sh.lock().unwrap().current = Some(i);
         out.emit(json!({"ev": "Begin", "cer": i + 1, "d": {"api": "ctap2", "op": c["op"], "req": c["req"], "env": c["env"]}}));
